@@ -50,6 +50,12 @@ func WarpTargetFullType(targetType string) (string, string) {
 		}
 	}
 
+	// a class of the own package comes before a same-named class of any other package
+	if _, ok := identMap[currentPkg+"."+pureTargetType]; ok && pureTargetType != "" {
+		callType = "same package"
+		return currentPkg + "." + pureTargetType, callType
+	}
+
 	for _, clz := range clzs {
 		if strings.HasSuffix(clz, "."+pureTargetType) {
 			callType = "same package"
